@@ -27,6 +27,16 @@ def jd(x):
     return json.dumps(x, sort_keys=True, default=str)
 
 
+def enrich(v, observers, defn=None):
+    """Attach the model-detected trigger facts to a violation (known-finding matchers read them)."""
+    if isinstance(v.detail, dict):
+        for ob in observers:
+            fl = getattr(ob, "flow", None)
+            if fl is not None:
+                v.detail.setdefault("events", sorted(fl.events))
+    return v
+
+
 def run(scn, stats, flags=None, observers=(), stop=None, count_exc=True):
     """Build and run a scenario.  Returns (defn, Run).  Engine exceptions are counted and end the run
     (they are violations of C15/C11, whose checks own them)."""
@@ -37,6 +47,8 @@ def run(scn, stats, flags=None, observers=(), stop=None, count_exc=True):
     r.truncated = None
     try:
         r.run(stop=stop)
+    except Violation as v:
+        raise enrich(v, observers)
     except provider.KnownTrigger as k:
         if stats is not None:
             stats.excluded[k.fid] += 1
